@@ -1,3 +1,5 @@
 SPECIFICATION TSpec
+CONSTANT
+  KnownF17 = TRUE
 POSTCONDITION TraceAccepted
 CHECK_DEADLOCK FALSE
